@@ -120,7 +120,7 @@ func checkAVCSPS(c avcSPSCase) *harness.Fail {
 func TestAVCSPS(t *testing.T) {
 	harness.RunRapid(t, "sps", func(rt *rapid.T) {
 		id := uint32(rapid.SampledFrom([]int{0, 0, 1, 2, 3, 15, 30, 31}).Draw(rt, "seq_parameter_set_id"))
-		c := avcSPSCase{Tree: esgen.GenAVCSPS(rt, esgen.AVCSPSOpts{ID: id})}
+		c := avcSPSCase{Tree: esgen.GenAVCSPS(rt, esgen.AVCSPSOpts{ID: id, PocCycleAny: true})}
 		cl := esgen.AVCSPSClasses(&c.Tree)
 		raw, _ := json.Marshal(c)
 		harness.Rec.Case(esgen.AVCNontrivial(cl, "avc-sps-profile-", "avc-sps-poc0", "avc-sps-baseline-main-extended"), raw, cl...)
